@@ -63,6 +63,11 @@ pub struct Kernel {
 
 pub struct Fault {
     pub site: u64,
+    // alternative addressing that survives unrelated changes of the call sequence:
+    // the nth call named `m_call` on the object spelled `m_path`
+    pub m_call: Option<String>,
+    pub m_path: Option<String>,
+    pub m_nth: u64,
     pub errno: Option<i32>,
     pub clamp: Option<u64>,
     pub fired: Option<String>,
@@ -138,6 +143,7 @@ pub struct Sup {
     last_lid: usize,
     max_ready: usize,
     explicit_pos: usize,
+    match_ctr: BTreeMap<(String, String), u64>,
 }
 
 static mut ALARMED: bool = false;
@@ -252,6 +258,7 @@ impl Sup {
             last_lid: 0,
             max_ready: 0,
             explicit_pos: 0,
+            match_ctr: BTreeMap::new(),
             cfg,
         };
         if s.cfg.sched.kind == "pct" {
@@ -1514,8 +1521,16 @@ impl Sup {
         let mut clamp: Option<u64> = None;
         let mut emulate: Option<&'static str> = None;
         if let Some(s) = site {
+            let pth = ci.fields.get("p").or_else(|| ci.fields.get("fdp")).and_then(|v| v.as_str()).unwrap_or("").to_string();
+            let key = (ci.name.to_string(), pth.clone());
+            let nth = *self.match_ctr.get(&key).unwrap_or(&0);
+            self.match_ctr.insert(key, nth + 1);
             for fl in self.cfg.faults.iter_mut() {
-                if fl.site == s {
+                let hit = match (&fl.m_call, &fl.m_path) {
+                    (Some(c), Some(p)) => c == ci.name && *p == pth && fl.m_nth == nth,
+                    _ => fl.site == s,
+                };
+                if hit {
                     if let Some(e) = fl.errno {
                         fail = Some(e);
                         fl.fired = Some(if ci.fd.is_some() && ci.name.contains("stat") { format!("{}-fd", ci.name) } else { ci.name.to_string() });
